@@ -47,6 +47,9 @@ static volatile int g_cur_dgram = -1;
 static uint8_t g_sentinel[DGRAM_MAX]; static int g_sentinel_len;
 static int g_in_sentinel;
 static long g_writes_this_dgram;
+/* reference output of the sentinel datagram alone (learned from the listener itself, so that the text format is not part of the oracle) */
+static int g_learn_fd = -1, g_variant_force = -1, g_cur_mode, g_cur_variant;
+static char g_ref_out[8][2][2048];
 static int g_rounds_left = -1;           /* soak rounds still to feed                */
 static long g_fed;                       /* datagrams fed so far                     */
 
@@ -121,6 +124,33 @@ static int lst_driver_main(void)
     uint64_t ran = 0, abnormal = 0, templates_seen = 0; uint64_t thash[256]; memset(thash, 0, sizeof thash);
     signal(SIGPIPE, SIG_IGN);
     printf("BEGIN|lstmon|%s|seed=%llu\n", lst_name(), (unsigned long long)seed);
+#ifdef LST_LEARN_REFERENCE
+    for (int mode = 0; mode < lst_nmodes() && mode < 8; mode++) for (int variant = 0; variant < 2; variant++) {
+        int lp[2]; if (pipe(lp) < 0) return 2;
+        fflush(stdout);
+        pid_t lpid = fork();
+        if (lpid < 0) return 2;
+        if (lpid == 0) {
+            close(lp[0]);
+            int dn = open("/dev/null", O_WRONLY); if (dn >= 0) { dup2(dn, 1); dup2(dn, 2); close(dn); }
+            struct sigaction sa; memset(&sa, 0, sizeof sa); sa.sa_handler = on_vtalrm; sigaction(SIGVTALRM, &sa, 0);
+            memset(&seq, 0, sizeof seq); strcpy(seq.tmpl, "reference-run");
+            g_seq = &seq; g_next = 0; g_in_sentinel = 0; g_rounds_left = -1; g_fed = 0;
+            g_learn_fd = lp[1]; g_variant_force = variant;
+            _exit(lst_child(mode, &seq));
+        }
+        close(lp[1]);
+        size_t rn = 0; ssize_t rk;
+        while ((rk = read(lp[0], g_ref_out[mode][variant] + rn, sizeof g_ref_out[mode][variant] - 1 - rn)) > 0) rn += (size_t)rk;
+        g_ref_out[mode][variant][rn] = 0;
+        close(lp[0]);
+        int lst = 0; waitpid(lpid, &lst, 0);
+        if (!(WIFEXITED(lst) && WEXITSTATUS(lst) == 0) || rn == 0) {
+            printf("F|{\"listener\":\"%s\",\"mode\":\"%s\",\"mode_index\":%d,\"template\":\"reference-run\",\"index\":0,\"status\":\"exit\",\"code\":%d,\"datagrams\":[],\"lengths\":[],\"stderr\":\"the valid datagram alone was not processed\"}\n",
+                   lst_name(), lst_mode_name(mode), mode, WIFEXITED(lst) && WEXITSTATUS(lst) ? WEXITSTATUS(lst) : EX_SENTINEL);
+        }
+    }
+#endif
     for (int mode = 0; mode < lst_nmodes(); mode++) {
         if (only_mode != 99 && only_mode != mode) continue;
         for (uint64_t i = 0; i < count; i++) {
